@@ -42,7 +42,9 @@ def loc_pairs(loc, n):
             # (the label of the feature says so: see between_marker)
             pairs.append((st, (int(p.start) - 1) % n))
             pairs.append((st, int(p.start) % n))
-        for i in range(int(p.start), int(p.end)):
+        # (a part longer than the circle covers every position; a broken implementation may produce absurd extents, the
+        # projection stays linear in the length of the record)
+        for i in range(int(p.start), min(int(p.end), int(p.start) + n)):
             pairs.append((st, i % n))
     return pairs
 
@@ -72,7 +74,7 @@ def ordered_parts(loc, n):
         return out
     for p in loc.parts:
         st = p.strand if p.strand in (1, -1) else 0
-        idx = [i % n for i in range(int(p.start), int(p.end))]
+        idx = [i % n for i in range(int(p.start), min(int(p.end), int(p.start) + n + 1))]      # (n + 1: "longer than the circle" stays visible)
         if int(p.start) == int(p.end):
             idx = [(int(p.start) - 1) % n, int(p.start) % n]
         if st == -1:
